@@ -7,7 +7,9 @@ package main
 // script of up to 2 nested mutations over Add/Remove of A,B,C. Oracle: the
 // property's wording - executed one at a time, nested ones queued not nested, in
 // queue-tick order, none lost (idle machine has an empty queue), WhenQueue(tick)
-// closed once processed whether accepted or canceled. Labelled bounded.
+// closed once processed whether accepted or canceled. The same scripts are also
+// issued from a tracer's QueueEnd hook (after the drain loop released the queue):
+// they must take effect and leave an empty queue. Labelled bounded.
 
 import (
 	"bytes"
@@ -35,10 +37,23 @@ import (
 
 type tr struct {
 	*am.TracerNoOp
-	log *[]string
+	log      *[]string
+	queueEnd func()
+	onStart  func(tick uint64)
 }
 
-func (t *tr) TransitionStart(tx *am.Transition) { *t.log = append(*t.log, "start") }
+func (t *tr) QueueEnd(m am.Api) {
+	if t.queueEnd != nil {
+		t.queueEnd()
+	}
+}
+
+func (t *tr) TransitionStart(tx *am.Transition) {
+	*t.log = append(*t.log, "start")
+	if t.onStart != nil {
+		t.onStart(tx.Mutation.QueueTick)
+	}
+}
 func (t *tr) TransitionEnd(tx *am.Transition) {
 	*t.log = append(*t.log, fmt.Sprintf("end:%d", tx.Mutation.QueueTick))
 }
@@ -71,22 +86,45 @@ func main() {
 	}
 	var failing []string
 	total := 0
+	for _, where := range []string{"AState", "AState-revsub", "QueueEnd"} {
 	for _, vetoC := range []bool{false, true} {
 		for _, script := range scripts {
+			// "-revsub": the WhenQueue subscriptions are taken after all the script's mutations
+			// were issued, latest tick first (bindings are kept in subscription order)
+			revSub := where == "AState-revsub"
+			if revSub && len(script) < 2 {
+				continue
+			}
 			total++
 			ctx, cancel := context.WithCancel(context.Background())
 			m := am.New(ctx, am.Schema{"A": {}, "B": {}, "C": {}}, &am.Opts{Id: "verif-c04"})
 			var log []string
-			m.BindTracer(&tr{TracerNoOp: &am.TracerNoOp{Id: "verif-c04"}, log: &log})
+			trc := &tr{TracerNoOp: &am.TracerNoOp{Id: "verif-c04"}, log: &log}
+			m.BindTracer(trc)
 			var ticks []am.Result
 			var waits []<-chan struct{}
+			var waitTicks []uint64
+			lateOpen := ""
+			trc.onStart = func(tick uint64) {
+				// a mutation later in the queue starts: every earlier queue tick has been processed
+				for i, w := range waits {
+					if waitTicks[i] > 0 && tick > waitTicks[i] {
+						select {
+						case <-w:
+						default:
+							lateOpen = fmt.Sprintf("WhenQueue(%d) still open when the mutation with queue tick %d starts", waitTicks[i], tick)
+						}
+					}
+				}
+			}
 			inHandler := false
 			nestedRan := false
 			neg := map[string]am.HandlerNegotiation{"CEnter": func(e *am.Event) bool { return !vetoC }}
 			scriptRan := false
-			fin := map[string]am.HandlerFinal{"AState": func(e *am.Event) {
+			var expect map[string]bool
+			runScript := func() {
 				if scriptRan {
-					return // the script runs in the first AState only (a script re-adding A would loop)
+					return // the script runs in the first AState / QueueEnd only (a script re-adding A would loop)
 				}
 				scriptRan = true
 				inHandler = true
@@ -99,15 +137,36 @@ func main() {
 						r = m.Remove1(o.name, nil)
 					}
 					ticks = append(ticks, r)
-					if r > am.Queued {
+					if r > am.Queued && !revSub {
 						waits = append(waits, m.WhenQueue(r))
+						waitTicks = append(waitTicks, uint64(r))
+					}
+					if where == "QueueEnd" && !(o.add && o.name == "C" && vetoC) {
+						expect[o.name] = o.add
 					}
 				}
-				if len(log) != before {
+				if revSub {
+					for i := len(ticks) - 1; i >= 0; i-- {
+						if ticks[i] > am.Queued {
+							waits = append(waits, m.WhenQueue(ticks[i]))
+							waitTicks = append(waitTicks, uint64(ticks[i]))
+						}
+					}
+				}
+				if len(log) != before && where != "QueueEnd" {
 					nestedRan = true
 				}
 				inHandler = false
-			}}
+			}
+			fin := map[string]am.HandlerFinal{}
+			if where != "QueueEnd" {
+				fin["AState"] = func(e *am.Event) { runScript() }
+			} else {
+				// after the drain loop: the queue is not being processed any more, so a
+				// mutation issued here is executed (or queued and drained) - never stranded
+				expect = map[string]bool{"A": true}
+				trc.queueEnd = runScript
+			}
 			if _, err := m.HandlersBindMaps(neg, fin); err != nil {
 				panic(err)
 			}
@@ -152,7 +211,15 @@ func main() {
 					queued++
 				}
 			}
-			if len(log)/2 != 1+queued {
+			for n, on := range expect {
+				if m.Is1(n) != on {
+					bad = fmt.Sprintf("mutation issued from the tracer's QueueEnd hook had no effect: %s active=%v, want %v (queue length %d)", n, m.Is1(n), on, m.QueueLen())
+				}
+			}
+			if lateOpen != "" {
+				bad = lateOpen
+			}
+			if where != "QueueEnd" && len(log)/2 != 1+queued {
 				bad = fmt.Sprintf("%d transitions executed for %d queued mutations: %s", len(log)/2, 1+queued, strings.Join(log, " "))
 			}
 			cancel()
@@ -161,9 +228,10 @@ func main() {
 				for _, o := range script {
 					sc = append(sc, o.String())
 				}
-				failing = append(failing, fmt.Sprintf("vetoC=%v Add A; in AState: %s => %s", vetoC, strings.Join(sc, " "), bad))
+				failing = append(failing, fmt.Sprintf("vetoC=%v Add A; in %s: %s => %s", vetoC, where, strings.Join(sc, " "), bad))
 			}
 		}
+	}
 	}
 	json.NewEncoder(os.Stdout).Encode(map[string]any{"failing": failing, "total": total})
 }
